@@ -2,7 +2,7 @@
    exit handle.  Theorems only: the regenerated keep list, the descriptor-limit refusal and the
    range of the closing loop; that the image's descriptor set is {0,1,2,exit} for every parent
    table is decided by the tie's random-table families. *)
-From Verif Require Import Lib WorldSpec LibSpec LibSpec2.
+From Verif Require Import Lib WorldSpec WorldSpec2 LibSpec LibSpec2 ChildSpec Build.
 From Coq Require Import Lia.
 Local Open Scope Z_scope.
 
@@ -29,6 +29,57 @@ Print Assumptions C11_max_fd.
 Theorem C11_loop_covers_limit : forall max_fd i, 0 <= i <= max_fd -> In i (seqZ 0 (max_fd + 1)).
 Proof. intros max_fd i H. apply elem_of_list_In. apply elem_of_seqZ. lia. Qed.
 Print Assumptions C11_loop_covers_limit.
+
+(* THE LOOP, for every table: after the closing loop over 0..max_fd, a descriptor that is still
+   open is one the table already had and is either in the keep list or outside 0..max_fd *)
+Theorem C11_close_loop_all_tables : forall skip t max_fd k d, 0 <= max_fd + 1 ->
+  foldl (close_step skip) t (seqZ 0 (max_fd + 1)) !! k = Some d ->
+  t !! k = Some d /\ (memZ k skip = true \/ k < 0 \/ max_fd < k).
+Proof. exact close_loop_result. Qed.
+Print Assumptions C11_close_loop_all_tables.
+
+(* the monadic loop of the model computes exactly that fold on the current process's table
+   (state-aware Hoare triple; every fault-free world) *)
+Theorem C11_close_loop_refines : forall (QS : world -> Prop) skip l p, Forall (fun i => 0 <= i) l ->
+  hoare (st p) (mapM_ (close_one skip) l) (fun _ w' => st (pr_with_fds (foldl (close_step skip) (pr_fds p) l) p) w') QS.
+Proof. intros QS. exact (@h_close_loop QS). Qed.
+Print Assumptions C11_close_loop_refines.
+
+(* THE CHILD, for every parent table: whatever descriptors the forked child inherited (any
+   table, any flags, all below the limit L), whatever the child ends and the two error pipes
+   are — if the child reaches a successful exec, every descriptor of the program's image is
+   0, 1, 2 or the exit handle; and the child code never returns to its caller in exec mode.
+   Covers the whole child side: signal reset, mask, limit, closing loop, moving low ends out of
+   the way, the dup2 loop with its close-on-exec handling, the exit handle, chdir, environ, exec,
+   and every natural failure exit (which ends in _exit without an image). *)
+Theorem C11_child_image_descriptors : forall L t fprd fpwr sprd spwr av pg env o (k : MW unit) w,
+  0 <= L ->
+  (forall x, is_Some (t !! x) -> 0 <= x < L) ->
+  (forall d, t !! sprd = Some d -> f_cloexec d = true) ->
+  (forall d, t !! spwr = Some d -> f_cloexec d = true) ->
+  stf L t w ->
+  match fork_child_part fprd fpwr [po_in o; po_out o; po_err o; sprd; spwr; po_exit o]
+                        (start_child_part sprd spwr (Some av) pg env o k) w with
+  | Ret _ _ => False
+  | Stop w' => forall im, pr_image (curp w') = Some im ->
+                 forall x d, In (x, d) (im_fds im) -> 0 <= x <= 2 \/ x = po_exit o
+  | Hang _ | Crash _ _ => True
+  end.
+Proof. exact child_image_descriptors. Qed.
+Print Assumptions C11_child_image_descriptors.
+
+(* non-vacuity: a concrete well-formed fault-free world satisfies the state predicate *)
+Example C11_ex_state :
+  let w := build_world 1000 0 7 [(0, {| f_obj := OExt 1 ARd; f_cloexec := false; f_nonblock := false |});
+                                 (5, {| f_obj := OExt 2 ARW; f_cloexec := false; f_nonblock := false |})]
+                       [] [] [47] [] 24 [] [] [] [] in
+  stf 24 (pr_fds (curp w)) w.
+Proof.
+  cbn zeta. eexists. split; [|repeat split; reflexivity].
+  split; [|split; reflexivity]. split.
+  - eexists. split; [apply lookup_singleton|]. split; reflexivity.
+  - intros k [x Hk]. cbn in Hk. apply lookup_singleton_Some in Hk. destruct Hk as [<- _]. cbn. lia.
+Qed.
 
 Example C11_ex : In 63 (seqZ 0 (63 + 1)).
 Proof. apply C11_loop_covers_limit. lia. Qed.
